@@ -9,11 +9,16 @@ sys.path.insert(0, VERIF)
 os.environ["PERSIM_ROOT"] = "/repo"
 from harness import common
 from harness.translator import consts, py2lean, py2ir
-consts.generate(common.REPO, common.LEAN_DIR)
-py2lean.generate(common.REPO, common.LEAN_DIR)
-with warnings.catch_warnings():
-    warnings.simplefilter("ignore")
-    py2ir.generate(common.REPO, common.LEAN_DIR)
+import fcntl
+os.makedirs(os.path.join(common.LEAN_DIR, ".lake"), exist_ok=True)
+with open(os.path.join(common.LEAN_DIR, ".lake", "verif.lock"), "w") as lock:      # the lock check.py holds while it builds
+    fcntl.flock(lock, fcntl.LOCK_EX)
+    consts.generate(common.REPO, common.LEAN_DIR)
+    py2lean.generate(common.REPO, common.LEAN_DIR)
+    with warnings.catch_warnings():
+        warnings.simplefilter("ignore")
+        py2ir.generate(common.REPO, common.LEAN_DIR)
+    fcntl.flock(lock, fcntl.LOCK_UN)
 out = subprocess.run(["git", "-C", VERIF, "status", "--short", "lean/PersimVerif/Generated"], stdout=subprocess.PIPE).stdout.decode()
 print(out or "generated files equal their regeneration from /repo")
 sys.exit(1 if ("--check" in sys.argv and out.strip()) else 0)
